@@ -19,7 +19,15 @@ RULE = ("one evaluation = one follow-up operation (or one immediate numbers/unit
         "protocol 0-5, copy, deepcopy, .copy, Unit.copy(deep=), savetxt/loadtxt, str(units) rebuild, nested containers, registry "
         "to_json/from_json, deepcopy, pickle) x registry (default, custom with added/modified/prefixable/offset/angle/logarithmic "
         "symbols and a registered code unit system, cgs-based, without defaults, with removed symbols) x unit (whole symbol table, "
-        "SI-prefixed, generated compounds, custom symbols) x dtype x shape. distinct = (kind, route, unit family, follow-up operation)")
+        "SI-prefixed, generated compounds, custom symbols) x dtype x shape. distinct = (kind, route, unit family, follow-up operation). "
+        "Second workload (histories after duplicating): one evaluation = one question (conversion / fresh quantity / Unit by unit string, registry "
+        "lookup, unit-system conversion) put, at the end of one history [use the original (unit strings resolved through its registry) before and/or "
+        "after duplicating -> duplicate by one route incl. Unit.copy(), get_base_equivalent()/in_base()/in_mks()/in_cgs()/convert_to_base() of an object "
+        "that already is in the base unit -> 1-4 registry edits (modify by float/quantity, re-add, re-add with the prefixable flag flipped, add new, "
+        "remove) each made through the registry of the original, of the duplicate or of both, interleaved with more use], to original and duplicate "
+        "(either order or interleaved) and compared (a) between the two whenever their tables hold the same contents and (b) with the answer of a "
+        "brand-new registry holding a copy of that side's current table; plus one evaluation per side nobody edited: its table is what it was when the "
+        "duplicate was made. distinct = (route, observed relation of the two registries, when it was used, edit kinds, edited through, monitor, question class)")
 ASSUMPTIONS = (
     "the oracle is differential between two executions (original vs restored); it never calls the persistence code to decide, and reads "
     "dimensions through vf/ref/dims.py by symbol name",
@@ -44,6 +52,16 @@ ASSUMPTIONS = (
     "cause (the cause alone is never a violation); everything else is keyed by operation class and failure kind. container routes, "
     "Unit.copy(deep=True) and registry deepcopy/pickle share the key of the code site they exercise (pickle / deepcopy), the cell keeps the exact route",
     "exception *class* is the refusal outcome; messages are not compared",
+    "histories after duplicating: whether original and duplicate share a registry / one table / nothing is read off the objects (identity of "
+    "registry and lut), never assumed from the route; two registries whose tables hold the same contents (one shared table always does) must answer "
+    "alike, and each side must answer like a brand-new registry built from a copy of its current table with the object's unit keeping its own scale "
+    "(an edit does not rescale objects built before it). A deep route (deepcopy, pickle, JSON, copy(deep=True)) whose duplicate shares the registry is a "
+    "violation; a shallow route may share or not. With one shared table an edit 'through both' is applied twice only when it is idempotent (remove once)",
+    "in_base()/in_mks()/in_cgs()/in_base('code')/convert_to_base()/get_base_equivalent() are duplication routes only when the object already is in the "
+    "base unit (they return Unit.copy()); they are driven with float64 data (they hand back floating-point data) and are skipped (note) when the result is "
+    "not an equal unit. A duplicate that is not the same right after duplicating is reported under the immediate oracle's keys and its history is not judged",
+    "which system 'code' names is decided by registry.unit_system_id (a hash of the table that is outside the statement): in_base('code') is compared "
+    "between original and duplicate but not against the brand-new registry",
     "HDF5 (write_hdf5/from_hdf5) needs h5py, dask arrays need dask: neither is installed, both routes are listed as unreached",
 )
 MIN_EVALS = 20000
@@ -154,6 +172,15 @@ def same_dim_pool():
     return pool
 
 
+def mk_regp(r):
+    """the numbers the custom registries are built from"""
+    return {"L": r.choice([3.0857e19, 2.5, 7.0e8]), "M": r.choice([1.989e40, 3.0, 1e-5]), "T": r.choice([3.1557e13, 11.0, 1e-3]),
+            "K": r.choice([1.0, 1e4, 2.5]), "foo": r.choice([0.3048, 12.5, 1e-7]), "degXs": r.choice([0.8, 1.25]),
+            "degXo": r.choice([-100.0, -341.4375]), "ang": r.choice([0.015707963267948967, 6.283185307179586 / 360]),
+            "log": r.choice([0.1151292546497023, 2.0]), "mile": r.choice([2000.0, 1500.5]), "msun": r.choice([2.0e30, 1.5e30]),
+            "pc": r.choice([3.0e16, 3.1e16])}
+
+
 def mk_case(r, kind, route, regkind, spec, pspec, fam, proto=None, built="str", dtype=None, shape=None, extra_targets=()):
     dv = spec_dim(spec)
     dtype = dtype or r.choice(DTYPES)
@@ -170,11 +197,7 @@ def mk_case(r, kind, route, regkind, spec, pspec, fam, proto=None, built="str", 
     pvals = [r.choice(VALS[1:]) for _ in range(n)]
     targets = [spec_string(pspec), base_string(dv)] + list(extra_targets)
     return {"kind": kind, "route": route, "proto": proto, "reg": regkind,
-            "regp": {"L": r.choice([3.0857e19, 2.5, 7.0e8]), "M": r.choice([1.989e40, 3.0, 1e-5]), "T": r.choice([3.1557e13, 11.0, 1e-3]),
-                     "K": r.choice([1.0, 1e4, 2.5]), "foo": r.choice([0.3048, 12.5, 1e-7]), "degXs": r.choice([0.8, 1.25]),
-                     "degXo": r.choice([-100.0, -341.4375]), "ang": r.choice([0.015707963267948967, 6.283185307179586 / 360]),
-                     "log": r.choice([0.1151292546497023, 2.0]), "mile": r.choice([2000.0, 1500.5]), "msun": r.choice([2.0e30, 1.5e30]),
-                     "pc": r.choice([3.0e16, 3.1e16])},
+            "regp": mk_regp(r),
             "spec": spec, "pspec": pspec, "built": built, "dtype": dtype, "shape": shape, "vals": vals, "pvals": pvals,
             "targets": targets[:3], "equivs": equivs_for(dv)[:2], "fam": fam, "named": r.random() < 0.3,
             "text": text_opts}
@@ -301,9 +324,13 @@ def batches(tier, seed):
     if tier == "quick":
         b = [("table/%d" % i, {"cases": c}) for i, c in enumerate(chunks(tc, 24))]
         b += [("random/%d" % i, {"gen": [tier, seed, 12, i]}) for i in range(16)]
+        b += [("history/%d" % i, {"hist": c}) for i, c in enumerate(chunks(shared_histories(tier, seed), 16))]
+        b += [("history-random/%d" % i, {"hgen": [tier, seed, 8, i]}) for i in range(16)]
     else:
         b = [("table/%d" % i, {"cases": c}) for i, c in enumerate(chunks(tc, 96))]
         b += [("random/%d" % i, {"gen": [tier, seed, 40, i]}) for i in range(64)]
+        b += [("history/%d" % i, {"hist": c}) for i, c in enumerate(chunks(shared_histories(tier, seed), 64))]
+        b += [("history-random/%d" % i, {"hgen": [tier, seed, 60, i]}) for i in range(64)]
     return b
 
 
@@ -1147,9 +1174,447 @@ def judge_case(rec, case, tmpdir):
     rec.sample({"case": ident, "ops": len(names), "refused_on_original": refusals}, limit=2)
 
 
+# --------------------------------------------------------------------------------------------------------- histories after duplicating
+# Second workload: a duplicate does not live alone.  One forked child builds an original object in a modifiable registry, uses it (unit strings
+# are resolved through its registry: whatever the library memoises gets filled), duplicates it through one route, then walks a history of
+# registry edits made through the registry of only ONE of the two objects (or of both) interleaved with more use, and finally asks both objects
+# the same questions.  Judged from plain facts read off the objects (are the two registries one object / do they share one table / do the two
+# tables hold the same contents):
+#   * same table contents            -> original and duplicate give the same outcome for every question,
+#   * every side                     -> the same outcome as a brand-new registry holding a copy of that side's current table (the outcome
+#                                       implied by the current table; nothing memoised),
+#   * independent (deep) duplicates  -> an edit through one side leaves the other side's table as it was when it was duplicated.
+SH_FOCUS = {   # edited symbols: symbol -> (dimension key, attribute of unyt.dimensions, prefixable)
+    "code_length": ("L", "length", False), "foo": ("L", "length", True), "mile": ("L", "length", False), "pc": ("L", "length", True),
+    "code_mass": ("M", "mass", False), "code_time": ("T", "time", False), "code_temperature": ("K", "temperature", False), "degX": ("K", "temperature", True)}
+SH_BASE = {"mks": {"L": "m", "M": "kg", "T": "s", "K": "K"}, "cgs": {"L": "cm", "M": "g", "T": "s", "K": "K"}}
+SH_CODE = {"L": "code_length", "M": "code_mass", "T": "code_time", "K": "code_temperature"}
+SH_OBJ_UNITS = {"L": ["m", "km", "cm", "code_length", "foo", "kfoo", "mile", "pc"], "M": ["kg", "g", "code_mass", "Msun"],
+                "T": ["s", "code_time", "Myr"], "K": ["K", "code_temperature", "degX", "R"]}
+SH_SUFFIX = {"L": ["", "", "/s", "**2"], "M": ["", "", "/s", "**2"], "T": ["", "", "*m", "**2"], "K": ["", "", "/s"]}
+# duplication routes: name -> (object the route is applied to, depth by Python's / the documented semantics, mechanism-key part = code site)
+SH_ROUTES = {
+    "array:copy.copy": ("array", "shallow", "copy.copy"), "array:method-copy": ("array", "shallow", "method-copy"),
+    "array:deepcopy": ("array", "deep", "deepcopy"), "array:pickle": ("array", "deep", "pickle"), "array:str": ("array", "shallow", "str"),
+    "array:reconstruct": ("array", "shallow", "reconstruct"),
+    "array:in_base-of-base-unit": ("array", "shallow", "unit.copy"), "array:in_mks-of-base-unit": ("array", "shallow", "unit.copy"),
+    "array:in_cgs-of-base-unit": ("array", "shallow", "unit.copy"), "array:in_base-code-of-code-unit": ("array", "shallow", "unit.copy"),
+    "array:convert_to_base-of-base-unit": ("array", "shallow", "unit.copy"),
+    "unit:unit.copy": ("unit", "shallow", "unit.copy"), "unit:copy.copy": ("unit", "shallow", "copy.copy"),
+    "unit:unit.copy-deep": ("unit", "deep", "deepcopy"), "unit:deepcopy": ("unit", "deep", "deepcopy"), "unit:pickle": ("unit", "deep", "pickle"),
+    "unit:str": ("unit", "shallow", "str"), "unit:get_base_equivalent-of-base-unit": ("unit", "shallow", "unit.copy"),
+    "unit:get_mks-or-cgs_equivalent-of-base-unit": ("unit", "shallow", "unit.copy"),
+    "registry:reg-copy": ("registry", "shallow", "copy.copy"), "registry:reg-deepcopy": ("registry", "deep", "deepcopy"),
+    "registry:reg-pickle": ("registry", "deep", "pickle"), "registry:json": ("registry", "deep", "json"),
+}
+SH_BASE_ROUTES = {"array:in_base-of-base-unit": "sys", "array:in_mks-of-base-unit": "mks", "array:in_cgs-of-base-unit": "cgs",
+                  "array:in_base-code-of-code-unit": "code", "array:convert_to_base-of-base-unit": "sys",
+                  "unit:get_base_equivalent-of-base-unit": "sys", "unit:get_mks-or-cgs_equivalent-of-base-unit": "sys"}
+SH_RELS = ("same-registry", "shared-table", "independent")
+SH_WARM = ("before", "after-original", "after-duplicate", "after-both", "never")
+
+
+def sh_questions(focus, sfx, nq=None, r=None):
+    qs = []
+    for F in focus:
+        T = F + sfx
+        qs += [["to", T], ["in_units", "k" + T], ["to", F + "**1" + sfx], ["to_value", T], ["convert_to_units", T], ["add-q", T], ["div-q", T],
+               ["unit", T], ["unit", F + "/s"], ["unit", "k" + F], ["unit", F], ["q-in_mks", T], ["q-in_base", "M" + T], ["reg-getitem", F],
+               ["reg-getitem", "k" + F], ["reg-contains", F], ["conv-factor", T], ["array-ctor", T], ["to-unit-object", T], ["lut-entry", F]]
+    qs += [["in_mks"], ["in_cgs"], ["in_base"], ["in_base-code"], ["eq-reparsed"], ["list_same_dimensions"], ["units-snapshot"], ["to-own-string"],
+           ["prefixable_units"], ["unit", "c11_new"], ["to", "c11_new" + sfx]]
+    if nq is not None and len(qs) > nq:
+        keep = sorted(r.sample(range(len(qs)), nq))
+        qs = [qs[i] for i in keep]
+    return qs
+
+
+def sh_edit(r, F, kind):
+    dk, dattr, pre = SH_FOCUS[F]
+    v = r.choice([5.0, 0.125, 7.5e3, 3.0e-4, 42.0])
+    if kind == "modify":
+        return ["modify", F, v]
+    if kind == "modify-quantity":
+        return ["modify-quantity", F, v, SH_BASE["mks"][dk]]
+    if kind == "re-add":
+        return ["add", F, v, dattr, pre, None]
+    if kind == "re-add-prefixable-flipped":
+        return ["add", F, v, dattr, not pre, None]
+    if kind == "add-new":
+        return ["add", "c11_new", v, dattr, False, None]
+    if kind == "remove":
+        return ["remove", F]
+    raise RuntimeError(kind)
+
+
+SH_EDIT_KINDS = ("modify", "modify-quantity", "re-add", "re-add-prefixable-flipped", "add-new", "remove")
+
+
+def sh_history(r, regkind, route, F, edits, warm, order, obj_unit=None, nq=None, focus2=None):
+    """edits: list of (edit kind, through).  warm: one of SH_WARM (which side parses the question strings, and when)"""
+    dk = SH_FOCUS[F][0]
+    sysname = "cgs" if regkind == "cgs" else "mks"
+    want = SH_BASE_ROUTES.get(route)
+    sfx = r.choice(SH_SUFFIX[dk])
+    if want is not None:        # the route duplicates only an object that already is in the base unit of the system asked for
+        sfx = ""
+        obj_unit = SH_CODE[dk] if want == "code" else SH_BASE[sysname if want == "sys" else want][dk]
+    elif obj_unit is None:
+        obj_unit = r.choice(SH_OBJ_UNITS[dk])
+    focus = [F] + ([focus2] if focus2 and focus2 != F and SH_FOCUS[focus2][0] == dk else [])
+    qs = sh_questions(focus, sfx, nq, r)
+    allq = list(range(len(qs)))
+    wq = allq if r.random() < 0.6 else sorted(r.sample(allq, max(1, len(allq) // 2)))
+    steps = []
+    if warm == "before":
+        steps.append(["warm", "original", wq])
+    steps.append(["duplicate"])
+    if warm in ("after-original", "after-both"):
+        steps.append(["warm", "original", wq])
+    if warm in ("after-duplicate", "after-both"):
+        steps.append(["warm", "duplicate", wq])
+    for i, (ek, through) in enumerate(edits):
+        steps.append(["edit", through, sh_edit(r, F if i % 2 == 0 or len(focus) == 1 else focus[1], ek)])
+        if i + 1 < len(edits) and r.random() < 0.5:
+            steps.append(["warm", r.choice(["original", "duplicate"]), sorted(r.sample(allq, max(1, len(allq) // 3)))])
+    shape = r.choice([[], [2], [3]])
+    n = int(np.prod(shape)) if shape else 1
+    dtype = r.choice(["float64", "float64", "float32", "int64"])      # (in_base & co. hand back floating-point data: they duplicate float64 objects only)
+    return {"reg": regkind, "regp": mk_regp(r), "route": route,
+            "unit": obj_unit + sfx, "dtype": dtype if want is None else "float64", "shape": shape,
+            "vals": [r.choice(VALS[1:]) for _ in range(n)], "proto": r.choice([2, 3, 4, 5]), "steps": steps, "questions": qs,
+            "order": order, "focus": focus, "warm": warm, "edits": [[ek, th] for ek, th in edits]}
+
+
+def shared_histories(tier, seed):
+    """enumerated core: every route x edit kind, the (through, warm, order) combination rotating with the index and the seed, and always
+    the combination 'used before duplicating, edited through one side'.  thorough: the full product."""
+    r = core.rng(0, "C11-shared")
+    out = []
+    routes = sorted(SH_ROUTES)
+    combos = [(th, w, o) for th in ("original", "duplicate", "both") for w in SH_WARM for o in ("original-first", "duplicate-first", "interleaved")]
+    focus_cycle = sorted(SH_FOCUS)
+    i = 0
+    for regkind in (("custom",) if tier == "quick" else ("custom", "cgs", "custom-mod", "removed")):
+        for route in routes:
+            for ek in SH_EDIT_KINDS:
+                i += 1
+                F = "code_length" if (i + seed) % 3 == 0 else focus_cycle[(i + seed) % len(focus_cycle)]
+                if tier == "quick":
+                    th, w, o = combos[(7 * i + seed) % len(combos)]
+                    picks = [(th, w, o), (("original", "duplicate")[(i + seed) % 2], "before", ("duplicate-first", "original-first", "interleaved")[(i + seed) % 3])]
+                elif regkind == "custom":
+                    picks = combos
+                else:
+                    picks = [combos[(7 * i + j + seed) % len(combos)] for j in range(0, len(combos), 9)] + [("original", "before", "duplicate-first"),
+                                                                                                         ("duplicate", "before", "original-first")]
+                for (th, w, o) in picks:
+                    out.append(sh_history(r, regkind, route, F, [(ek, th)], w, o))
+    return out
+
+
+def random_histories(tier, seed, n, i):
+    r = core.rng(seed, "C11-shared-random", i)
+    out = []
+    for _ in range(n):
+        regkind = r.choice(["custom", "custom", "custom-mod", "cgs", "removed"])
+        route = r.choice(sorted(SH_ROUTES))
+        F = r.choice(sorted(SH_FOCUS))
+        same = [s for s in SH_FOCUS if SH_FOCUS[s][0] == SH_FOCUS[F][0] and s != F]
+        edits = [(r.choice(SH_EDIT_KINDS), r.choice(["original", "duplicate", "original", "duplicate", "both"])) for _ in range(r.randint(1, 4))]
+        out.append(sh_history(r, regkind, route, F, edits, r.choice(SH_WARM + ("before",)), r.choice(["original-first", "duplicate-first", "interleaved"]),
+                              nq=r.choice([12, 20, None]), focus2=r.choice(same) if same and r.random() < 0.5 else None))
+    return out
+
+
+def sh_ask(unyt, o, q):
+    """one question put to the object o; unit strings are resolved in o's own registry"""
+    reg = o.units.registry
+    U, uq = unyt.Unit, unyt.unyt_quantity
+    k = q[0]
+    s = q[1] if len(q) > 1 else None
+    if k == "to": return lambda: o.to(s)
+    if k == "in_units": return lambda: o.in_units(s)
+    if k == "to_value": return lambda: o.to_value(s)
+    if k == "convert_to_units": return lambda: (lambda c: (c.convert_to_units(s), c)[1])(o.copy())
+    if k == "add-q": return lambda: o + uq(1.0, s, registry=reg)
+    if k == "div-q": return lambda: (o / uq(2.0, s, registry=reg)).to("")
+    if k == "unit": return lambda: U(s, registry=reg)
+    if k == "q-in_mks": return lambda: uq(1.0, s, registry=reg).in_mks()
+    if k == "q-in_base": return lambda: uq(1.0, s, registry=reg).in_base()
+    if k == "reg-getitem": return lambda: float(reg[s][0])
+    if k == "reg-contains": return lambda: s in reg
+    if k == "conv-factor": return lambda: o.units.get_conversion_factor(U(s, registry=reg))
+    if k == "array-ctor": return lambda: unyt.unyt_array(np.asarray(o.d), s, registry=reg).in_mks()
+    if k == "to-unit-object": return lambda: o.to(U(s, registry=reg))
+    if k == "lut-entry": return lambda: (lambda e: None if e is None else lut_entry(e))(reg.lut.get(s))
+    if k == "in_mks": return lambda: o.in_mks()
+    if k == "in_cgs": return lambda: o.in_cgs()
+    if k == "in_base": return lambda: o.in_base()
+    if k == "in_base-code": return lambda: o.in_base("code")
+    if k == "eq-reparsed": return lambda: o.units == U(str(o.units), registry=reg)
+    if k == "list_same_dimensions": return lambda: [x for x in reg.list_same_dimensions(o.units) if x in STATIC_ATOMS]
+    if k == "units-snapshot": return lambda: o.units
+    if k == "to-own-string": return lambda: o.to(str(o.units))
+    if k == "prefixable_units": return lambda: sorted(reg.prefixable_units)
+    raise RuntimeError("unknown question " + repr(q))
+
+
+def sh_qclass(q):
+    k = q[0]
+    if k in ("to", "in_units", "to_value", "convert_to_units", "to-own-string", "array-ctor"):
+        return "convert-by-name"
+    if k in ("add-q", "div-q", "q-in_mks", "q-in_base"):
+        return "fresh-quantity-by-name"
+    if k in ("unit", "to-unit-object", "conv-factor", "eq-reparsed"):
+        return "unit-from-string"
+    if k in ("reg-getitem", "reg-contains", "lut-entry", "prefixable_units", "list_same_dimensions"):
+        return "registry-lookup"
+    if k in ("in_mks", "in_cgs", "in_base"):
+        return "system:default-systems"
+    if k == "in_base-code":
+        return "system:code"
+    return k
+
+
+def sh_apply_edit(unyt, reg, e):
+    D = unyt.dimensions
+    try:
+        if e[0] == "modify":
+            reg.modify(e[1], e[2])
+        elif e[0] == "modify-quantity":
+            reg.modify(e[1], unyt.unyt_quantity(e[2], e[3]))
+        elif e[0] == "add":
+            reg.add(e[1], e[2], getattr(D, e[3]), prefixable=e[4], offset=e[5])
+        elif e[0] == "remove":
+            reg.remove(e[1])
+        else:
+            raise RuntimeError("unknown edit " + repr(e))
+    except (unyt.exceptions.SymbolNotFoundError, unyt.exceptions.UnitParseError) as ex:
+        return type(ex).__name__
+    return None
+
+
+def sh_duplicate(unyt, h, b):
+    """-> (duplicate array, route said it was not applicable)"""
+    route, x, u, reg = h["route"], b.x, b.x.units, b.x.units.registry
+    mk = lambda unit: build_array(unyt, unit, h["vals"], h["dtype"], h["shape"])
+    if route == "array:copy.copy": return copy.copy(x)
+    if route == "array:method-copy": return x.copy()
+    if route == "array:deepcopy": return copy.deepcopy(x)
+    if route == "array:pickle": return pickle.loads(pickle.dumps(x, protocol=h["proto"]))
+    if route == "array:str": return type(x)(np.array(x.d), str(x.units), registry=reg)
+    if route == "array:reconstruct": return unyt.unyt_array(x) if h["shape"] else unyt.unyt_quantity(x)
+    if route == "array:in_base-of-base-unit": return x.in_base()
+    if route == "array:in_mks-of-base-unit": return x.in_mks()
+    if route == "array:in_cgs-of-base-unit": return x.in_cgs()
+    if route == "array:in_base-code-of-code-unit": return x.in_base("code")
+    if route == "array:convert_to_base-of-base-unit":
+        c = x.copy(); c.convert_to_base(); return c
+    if route == "unit:unit.copy": return mk(u.copy())
+    if route == "unit:copy.copy": return mk(copy.copy(u))
+    if route == "unit:unit.copy-deep": return mk(u.copy(deep=True))
+    if route == "unit:deepcopy": return mk(copy.deepcopy(u))
+    if route == "unit:pickle": return mk(pickle.loads(pickle.dumps(u, protocol=h["proto"])))
+    if route == "unit:str": return mk(unyt.Unit(str(u), registry=reg))
+    if route == "unit:get_base_equivalent-of-base-unit": return mk(u.get_base_equivalent())
+    if route == "unit:get_mks-or-cgs_equivalent-of-base-unit": return mk(u.get_cgs_equivalent() if h["reg"] == "cgs" else u.get_mks_equivalent())
+    if route == "registry:reg-copy": return mk(unyt.Unit(h["unit"], registry=copy.copy(reg)))
+    if route == "registry:reg-deepcopy": return mk(unyt.Unit(h["unit"], registry=copy.deepcopy(reg)))
+    if route == "registry:reg-pickle": return mk(unyt.Unit(h["unit"], registry=pickle.loads(pickle.dumps(reg, protocol=h["proto"]))))
+    if route == "registry:json": return mk(unyt.Unit(h["unit"], registry=unyt.UnitRegistry.from_json(reg.to_json())))
+    raise RuntimeError("unknown route " + route)
+
+
+def sh_tables_differ(la, lb):
+    """symbols whose entries differ between two tables (lazily materialised SI-prefixed entries apart)"""
+    out = []
+    for k in set(la) | set(lb):
+        ea, eb = la.get(k), lb.get(k)
+        if ea is eb:
+            continue
+        if ea is None or eb is None:
+            if not derived_prefixed(k, la if eb is None else lb):
+                out.append(k)
+        elif not (ea[0] == eb[0] and (ea[1] is eb[1] or ea[1] == eb[1]) and tuple(ea[2:]) == tuple(eb[2:])):
+            out.append(k)
+    return sorted(out)
+
+
+def sh_child(h):
+    import warnings
+    warnings.simplefilter("ignore")
+    import unyt
+    b = Built()
+    b.reg = build_registry(unyt, h)
+    b.x = build_array(unyt, unyt.Unit(h["unit"], registry=b.reg), h["vals"], h["dtype"], h["shape"])
+    qs = h["questions"]
+    sides = {"original": b.x}
+    out = {"edit_refusals": []}
+    snap = None
+    for st in h["steps"]:
+        if st[0] == "duplicate":
+            try:
+                R = sh_duplicate(unyt, h, b)
+            except Exception as e:
+                out["duplicate_refused"] = type(e).__name__ + ": " + str(e)[:200]
+                return out
+            sides["duplicate"] = R
+            ro, rd = b.x.units.registry, R.units.registry
+            out["rel"] = "same-registry" if ro is rd else ("shared-table" if ro.lut is rd.lut else "independent")
+            a, c = normunit(b.x.units), normunit(R.units)
+            out["same_units"] = (a["s"] == c["s"] and a["dim"] == c["dim"] and fsame(a["bv"], c["bv"], False) and fsame(a["bo"], c["bo"], False))
+            out["exact"] = a["bv"] == c["bv"] and a["bo"] == c["bo"]
+            b.X = b.x       # the immediate oracle of the first workload: numbers, units, table entry by entry, unit system
+            out["imm"], _, _ = immediate(unyt, {"kind": "array", "route": SH_ROUTES[h["route"]][2]}, b, R, None)
+            snap = {"original": dict(ro.lut), "duplicate": dict(rd.lut)}
+            edited = {"original": False, "duplicate": False}
+        elif st[0] == "warm":
+            o = sides[st[1]]
+            for i in st[2]:
+                outcome(sh_ask(unyt, o, qs[i]))
+        elif st[0] == "edit":
+            ro, rd = sides["original"].units.registry, sides["duplicate"].units.registry
+            one_table = ro.lut is rd.lut
+            targets = {"original": [ro], "duplicate": [rd], "both": [ro] if one_table and st[2][0] == "remove" else [ro, rd]}[st[1]]
+            for t in targets:
+                ref = sh_apply_edit(unyt, t, st[2])
+                if ref:
+                    out["edit_refusals"].append(ref)
+            for s_ in (("original", "duplicate") if st[1] == "both" or one_table else (st[1],)):
+                edited[s_] = True
+    ro, rd = sides["original"].units.registry, sides["duplicate"].units.registry
+    out["rel_end"] = "same-registry" if ro is rd else ("shared-table" if ro.lut is rd.lut else "independent")
+    out["tables_differ"] = sh_tables_differ(ro.lut, rd.lut)[:6]
+    # isolation: a side whose registry nobody edited still holds the table it had when it was duplicated
+    out["isolation"] = {s_: (None if edited[s_] else sh_tables_differ(snap[s_], sides[s_].units.registry.lut)[:6]) for s_ in ("original", "duplicate")}
+    # the outcome implied by the current table: a brand-new registry holding a copy of it (taken before the questions are asked)
+    fresh = {}
+    for s_ in ("original", "duplicate"):
+        o = sides[s_]
+        reg = o.units.registry
+        if s_ == "duplicate" and reg.lut is ro.lut and normunit(o.units) == normunit(sides["original"].units) and o.dtype == sides["original"].dtype:
+            continue       # one table, equal objects: one reference vector serves both
+        fr = unyt.UnitRegistry(add_default_symbols=False, lut=dict(reg.lut), unit_system=reg.unit_system)
+        fu = unyt.Unit(str(o.units.expr), base_value=o.units.base_value, base_offset=o.units.base_offset, dimensions=o.units.dimensions, registry=fr)
+        fresh[s_] = type(o)(np.array(o.d), fu)
+    vec = {"original": [None] * len(qs), "duplicate": [None] * len(qs)}
+    first, second = ("duplicate", "original") if h["order"] == "duplicate-first" else ("original", "duplicate")
+    f0 = (_fingerprint(sides["original"]), _fingerprint(sides["duplicate"]))
+    if h["order"] == "interleaved":
+        for i, q in enumerate(qs):
+            for s_ in ((first, second) if i % 2 == 0 else (second, first)):
+                vec[s_][i] = outcome(sh_ask(unyt, sides[s_], q))
+    else:
+        for s_ in (first, second):
+            for i, q in enumerate(qs):
+                vec[s_][i] = outcome(sh_ask(unyt, sides[s_], q))
+    if (_fingerprint(sides["original"]), _fingerprint(sides["duplicate"])) != f0:
+        raise RuntimeError("harness: a question changed one of the two objects")
+    out["vec"] = vec
+    out["fresh"] = {s_: [outcome(sh_ask(unyt, o, q)) for q in qs] for s_, o in fresh.items()}
+    return out
+
+
+def judge_history(rec, h):
+    route = h["route"]
+    kind, depth, rkey = SH_ROUTES[route]
+    ident = {"route": route, "registry": h["reg"], "unit": h["unit"], "dtype": h["dtype"], "shape": h["shape"], "vals": h["vals"], "proto": h["proto"],
+             "steps": [s if s[0] != "warm" else [s[0], s[1], len(s[2])] for s in h["steps"]], "order": h["order"],
+             "regp": {k: h["regp"][k] for k in ("L", "foo", "M", "T", "K", "degXs", "degXo")}}
+    rec.count("history:histories")
+    res = fork_call(lambda: sh_child(h))
+    rec.count("forks:history")
+    if "harness_error" in res:
+        raise RuntimeError(f"harness error in history child of {ident}: " + res["harness_error"])
+    if res.get("watchdog"):
+        rec.count("inconclusive-cases:watchdog"); return
+    pre = f"C11:{rkey}:{kind}:history-after-duplicating"
+    if "duplicate_refused" in res and route in SH_BASE_ROUTES:
+        rec.note("history:route-did-not-duplicate:" + route); return
+    if "duplicate_refused" in res:
+        rec.violation(f"{pre}:duplicating-refused", f"{route} of an object in {h['unit']} ({h['reg']} registry) raised {res['duplicate_refused']}", ident)
+        return
+    if route in SH_BASE_ROUTES and not res["same_units"]:       # the object was not in the base unit after all: a conversion, not a duplicate
+        rec.note("history:route-did-not-duplicate:" + route); return
+    if res["imm"]:      # not the same right after duplicating: the violation of the immediate oracle (same keys as in the first workload)
+        for (op, k, text) in res["imm"]:
+            rec.violation(f"C11:{rkey}:{kind}:{op}:{k}", f"{route} of an object in {h['unit']} ({h['reg']} registry): {text}", ident)
+        rec.count("history:not-the-same-right-after-duplicating")
+        return
+    rel = res["rel"]
+    rec.count("history:rel:" + rel)
+    edits = "+".join(sorted({e[0] for e in h["edits"]}))
+    through = "+".join(sorted({e[1] for e in h["edits"]}))
+    cellbase = (route, rel, "warm-" + h["warm"], "edit-" + edits, "through-" + through)
+    if depth == "deep" and rel != "independent":
+        rec.violation(f"{pre}:deep-route-shares-the-registry:{rel}", f"{route} ({h['reg']} registry) is a deep route but original and duplicate are {rel}", ident)
+    elif depth == "deep":
+        rec.ok(cellbase + ("deep-route-independent",))
+    exact = res["exact"]
+    # isolation
+    for s_, d in res["isolation"].items():
+        if d is None:
+            continue
+        rec.count("history:isolation")
+        if d:
+            rec.violation(f"{pre}:{rel}:table-of-the-side-nobody-edited-changed", f"{route} ({h['reg']} registry): nobody edited the registry of the {s_} "
+                          f"but its entries for {d} are not what they were when the duplicate was made", ident)
+        else:
+            rec.ok(cellbase + ("isolation:" + s_,))
+    qs = h["questions"]
+    show = lambda o_: json.dumps({k: v for k, v in o_.items() if k != "dt"})[:260]
+    hist = f"history {ident['steps']}, questions asked {h['order']}"
+    one_contents = not res["tables_differ"]
+    if rel != "independent" and not one_contents:
+        raise RuntimeError(f"harness: one table but contents differ: {res['tables_differ']} in {ident}")
+    if rel != "independent" and h["warm"] in ("before", "after-original", "after-duplicate", "after-both") and through in ("original", "duplicate"):
+        rec.count(f"history:{rel}:used-{'before' if h['warm'] == 'before' else 'after'}-duplicating:edited-through-one-side")
+    vo, vd = res["vec"]["original"], res["vec"]["duplicate"]
+    if one_contents:
+        n = 0
+        for q, a, c in zip(qs, vo, vd):
+            d = differ(a, c, exact)
+            n += 1
+            if d:
+                rec.violation(f"{pre}:{rel}:original-and-duplicate-with-equal-tables-answer-differently:{sh_qclass(q)}:{d}",
+                              f"{route} of an object in {h['unit']} ({h['reg']} registry; the two registries are {rel} and hold the same contents); {hist}: "
+                              f"{q} on the original gives {show(a)}, on the duplicate {show(c)}", ident)
+            else:
+                rec.ok(cellbase + ("original-vs-duplicate", sh_qclass(q)))
+        rec.count("history:original-vs-duplicate:" + rel, n)
+    else:
+        rec.count("history:tables-differ-after-history")
+    n = 0
+    for s_, v in (("original", vo), ("duplicate", vd)):
+        fv = res["fresh"].get(s_) or res["fresh"]["original"]
+        for q, a, f in zip(qs, v, fv):
+            if q[0] == "in_base-code":
+                continue      # which unit system 'code' names is decided by registry.unit_system_id (outside the statement); judged between the two sides only
+            d = differ(f, a, exact)
+            n += 1
+            if d:
+                rec.violation(f"{pre}:{rel}:answer-not-the-one-a-new-registry-with-the-same-table-gives:{s_}:{sh_qclass(q)}:{d}",
+                              f"{route} of an object in {h['unit']} ({h['reg']} registry, {rel}); {hist}: {q} on the {s_} gives {show(a)}; a new registry "
+                              f"holding a copy of its current table gives {show(f)}", ident)
+            else:
+                rec.ok(cellbase + ("vs-new-registry:" + s_, sh_qclass(q)))
+    rec.count("history:vs-new-registry:" + rel, n)
+    rec.count("history:judged")
+    rec.reach("history:" + route)
+    rec.reach("history:registry:" + h["reg"])
+    for e in res["edit_refusals"]:
+        rec.note("history:edit-refused:" + e)
+    rec.sample({"history": ident, "relation": rel, "questions": len(qs)}, limit=1)
+
+
 def worker(batch, rec):
     import unyt  # noqa: F401  (the forks below start from this import-time state)
     bid, payload = batch
+    if "hist" in payload or "hgen" in payload:
+        for h in (payload["hist"] if "hist" in payload else random_histories(*payload["hgen"])):
+            judge_history(rec, h)
+        return
     cases = payload["cases"] if "cases" in payload else random_cases(*payload["gen"])
     tmpdir = tempfile.mkdtemp(prefix="c11-run-")
     try:
@@ -1173,14 +1638,21 @@ def extra(tier, seed, results):
                                   "write_refusals": counters.get(f"write-refusals:{kind}:{route}", 0)}
         if n_i == 0 or n_b == 0:
             starving.append(f"{kind}:{route}")
+    hist_keys = (["history:judged", "history:isolation", "history:shared-table:used-before-duplicating:edited-through-one-side",
+                  "history:shared-table:used-after-duplicating:edited-through-one-side"]
+                 + ["history:original-vs-duplicate:" + rel for rel in SH_RELS] + ["history:vs-new-registry:" + rel for rel in SH_RELS])
+    sub["histories-after-duplicating"] = {k: counters.get(k, 0) for k in ["history:histories", "history:tables-differ-after-history"] + hist_keys}
     known = core.load_findings()
     any_violation = any(k not in known for _, r in results for k in (r.get("viol") or {}))
     if not any_violation:        # a run that reports new violations is decided; "saw nothing" only matters when nothing new was found
         if starving:
             raise core.Inconclusive("sub-monitor-saw-nothing:" + ",".join(starving))
-        for m in ("x", "r", "xr", "rx", "m"):
+        for m in ("x", "r", "xr", "rx", "m", "history"):
             if counters.get("forks:" + m, 0) == 0:
                 raise core.Inconclusive("no-fork-in-mode-" + m)
+        blind = [k for k in hist_keys if counters.get(k, 0) == 0]
+        if blind:
+            raise core.Inconclusive("history-sub-monitor-saw-nothing:" + ",".join(blind))
         wd = counters.get("inconclusive-cases:watchdog", 0)
         if wd > 0.02 * max(1, counters.get("cases", 0)):
             raise core.Inconclusive(f"watchdog-on-{wd}-cases")
